@@ -503,6 +503,11 @@ func run(c *fw.Ctx) {
 		{"zero time.Time", tz0, true, tz0}, {"*zero time.Time", &tz0, true, tz0}, {"zero instant in +01:00", tz1, true, tz1}, {"*zero instant in +01:00", &tz1, true, tz1},
 		{"zero time + 1ns", tz2, true, tz2}, {"unix epoch", tz3, true, tz3}, {"year 9999", tz4, true, tz4}, {"zero time.Duration", time.Duration(0), true, int64(0)},
 		{"empty json.RawMessage", json.RawMessage{}, true, json.RawMessage{}},
+		// locations are what they are, not what they are called: fixed zones that carry the names of the two singletons
+		{"*time.Location Local", time.Local, true, time.Local}, {"fixed zone +01:00", time.FixedZone("plus1", 3600), true, time.FixedZone("plus1", 3600)},
+		{"fixed zone named UTC at +05:30", time.FixedZone("UTC", 19800), true, time.FixedZone("UTC", 19800)},
+		{"fixed zone named Local at -08:00", time.FixedZone("Local", -28800), true, time.FixedZone("Local", -28800)},
+		{"fixed zone with an empty name", time.FixedZone("", 7200), true, time.FixedZone("", 7200)},
 		{"nil *time.Duration", nilD, false, nil}, {"*time.Duration", &d, false, nil}, {"nil *json.RawMessage", nilR, false, nil}, {"*json.RawMessage", &rm, false, nil},
 	}
 	// Go error values: a typed nil pointer is still a (non-nil) error interface value; converting it must not call
@@ -640,6 +645,18 @@ func sameReg(got, want any) bool {
 	case json.RawMessage:
 		g, ok := got.(json.RawMessage)
 		return ok && string(g) == string(w)
+	case *time.Location:
+		g, ok := got.(*time.Location)
+		if !ok || g == nil || w == nil {
+			return ok && g == w
+		}
+		// the same name and the same offset, summer and winter
+		for _, m := range []time.Month{time.January, time.July} {
+			if time.Date(2020, m, 1, 12, 0, 0, 0, g).Format(time.RFC3339) != time.Date(2020, m, 1, 12, 0, 0, 0, w).Format(time.RFC3339) {
+				return false
+			}
+		}
+		return g.String() == w.String()
 	}
 	return reflect.DeepEqual(got, want)
 }
